@@ -1,10 +1,12 @@
 SPECIFICATION CSpec
 CONSTANTS
   Addr = {1, 2}
-  Desc = {"ListStr", "DictStrFloat", "TupIntStr", "ListMy", "ListUIF", "ListUFI", "ListLitFloat", "ClsCamel", "InnerG", "OuterH1"}
+  Desc = {"ListStr", "DictStrFloat", "TupIntStr", "ListMy", "ListUIF", "ListUFI", "ListLitFloat", "ClsCamel", "InnerG", "OuterH1", "MyListR"}
   HS = {"h0", "h1"}
   Threads = {1, 2}
   PinKeyArgs = FALSE
+  MaxReg = 1
+  RegDesign = "keyed"
   MaxLevel = 40
 CONSTRAINT Bounded
 
